@@ -296,6 +296,41 @@ class PShape(Shape):
             assert sum(row.values()) == 1, (k, row)
 
 
+def generated_pshapes(count, seed=20261004):
+    """a reproducible family of further POMDP skeletons for the thorough tiers (fixed construction, the same list on every run):
+    2-3 states, 1-2 actions available everywhere, 1-3 observations, rows and observation kernels from a menu of splits with
+    zero entries, 0-1 absorbing states, one or two initial states"""
+    import random as _r
+    rng = _r.Random(seed)
+    H, Q1, Q3, T = F(1, 2), F(1, 4), F(3, 4), F(1, 3)
+    splits = [[F(1)], [H, H], [Q1, Q3], [T, 2 * T], [Q1, Q1, H], [F(1), F(0)], [F(17, 20), F(3, 20)]]
+    out = []
+    guard = 0
+    while len(out) < count and guard < 50 * count:
+        guard += 1
+        S, A, nO = rng.randint(2, 3), rng.randint(1, 2), rng.randint(1, 3)
+        rows = {}
+        for s_ in range(S):
+            for a in range(A):
+                sp = rng.choice([x for x in splits if len(x) <= S])
+                rows[(s_, a)] = dict(zip(rng.sample(range(S), len(sp)), sp))
+        obs = {}
+        for a in range(A):
+            for ns in range(S):
+                sp = rng.choice([x for x in splits if len(x) <= nO])
+                obs[(a, ns)] = dict(zip(rng.sample(range(nO), len(sp)), sp))
+        absorb = rng.sample(range(S), rng.choice([0, 0, 1]))
+        k0 = rng.randint(1, 2)
+        st = rng.sample(range(S), k0)
+        s0 = {st[0]: F(1)} if k0 == 1 else {st[0]: Q1, st[1]: Q3}
+        sh = PShape(S, A, [list(range(A))] * S, rows, absorb=absorb, s0=s0, gamma=rng.choice([H, F(9, 10)]), name=f'pgen{len(out)}',
+                    obs=obs, olabels=['o%d' % k for k in range(nO)])
+        if sh.reach_from(list(s0), stop=set(absorb)) != set(range(S)):
+            continue
+        out.append(sh)
+    return out
+
+
 def build_pomdp(sx, sh, rew, obs_override=None, observation_list=None):
     """a TabularPOMDP subclass instance whose methods read the shape's tables"""
     from msdm.core.pomdp import TabularPOMDP
